@@ -121,6 +121,9 @@ bool sim_conn_client_gone(int cid);
 int sim_conn_fd(int cid);
 size_t sim_conn_unread(int cid); /* bytes queued towards the daemon, not yet read */
 
+/* deterministic stub of cjet_get_random_bytes (salt generation) */
+void sim_seed_random(uint64_t seed);
+
 /* clock / timers */
 uint64_t sim_now(void);
 void sim_advance(uint64_t ns);             /* advance virtual clock; expires timers whose deadline <= now */
